@@ -46,7 +46,7 @@ var c03Inputs = []string{"1", "2", "3", ""}
 
 // c03LastInputs: additional inputs tried in the last position of a history only - a selector followed by a
 // blank (must not be taken for the selector) and an input with a formatting verb (shown verbatim by the catch page).
-var c03LastInputs = []string{"1 ", "5%d"}
+var c03LastInputs = []string{"1 ", "5%d", "7{{.x}}"} // the last one: template syntax in the input
 
 func c03Tables() [][]c03Line {
 	var kinds []c03Line
@@ -237,6 +237,9 @@ func c03History(t []c03Line, depth int, mode string, inputs []string, c *mc.Ctx)
 		}
 		if len(fetched) != 1 || fetched[0] != hit.nav.Top() {
 			return "not-exactly-one-move", fmt.Sprintf("%s: code fetched for %v, exactly one move to %s expected", where, fetched, hit.nav.Top()), steps
+		}
+		if hit.catch && r.FlushErr != "" {
+			return "catch-page-fails-to-render", fmt.Sprintf("%s: the catch page cannot be shown: %s", where, r.FlushErr), steps
 		}
 		if hit.catch && in != "" && !strings.Contains(r.Out, in) && r.FlushErr == "" {
 			return "invalid-input-not-shown", fmt.Sprintf("%s: catch page %q does not show the input", where, r.Out), steps
